@@ -4,4 +4,4 @@ Require Extraction.
 Require ExtrOcamlBasic.
 Extraction "../extract/gen/vtable_spec.ml" VTableSpec.step VTableSpec.init.
 Extraction "../extract/gen/vs_model.ml" m_fdefine m_setfields_w m_setfields_r m_vsseek m_vswrite m_vswrite_lens m_vswrite_lens_checked
-  m_vsread m_vsread_lens m_vsread_lens_checked m_vpackvs m_vunpackvs m_setname m_setclass m_vssizeof m_fpack_layout m_pack m_unpack.
+  m_vsread m_vsread_lens m_vsread_lens_checked m_vpackvs m_vunpackvs m_setname m_setclass m_vssizeof m_vsfexist m_fpack_layout m_pack m_unpack.
